@@ -1217,6 +1217,7 @@ var Rules = []report.Rule{
 	{ID: "G35", Floor: 1, Props: []string{"C15", "C13"}, Text: "syntax the generator synthesises (composite literals of go/ast node types; they carry no position, so the hoisting printer prints them in place) is closed: every element of syntax type is itself such a literal, ast.NewIdent(...) or nil - a made-up node never wraps a user expression (seed C15_m)"},
 	{ID: "G36", Floor: 20, Props: []string{"C13", "C16"}, Text: "in the generator a branch taken because an error value is not nil never returns the literal nil as the function's error result (an error in hand is not turned into success; found by the mutation sweep of gen.go)"},
 	{ID: "G37", Floor: 20, Props: []string{"C14", "C13"}, Text: "in the methods of the compiler that return a pointer, a conditional `return nil` stands in a block that reports a diagnostic first, or only hands on a failure reported where it arose (a nil result of another compiler method, the recorded diagnostics): the compiler never gives up on a directive, an option or a task silently (mutation sweep of compile_parallel.go)"},
+	{ID: "G42", Floor: 4, Props: []string{"C13", "C14", "C15"}, Text: "every switch of the compiler over the name of an option function covers all functions of package cff that return the same option type as the ones it names, or has a default clause that reports a diagnostic: no option a type-correct directive can pass is dropped in silence"},
 	{ID: "G41", Floor: 1, Props: []string{"C13", "C16"}, Text: "the list of directives that GenerateFile walks by source offset is in source order: every append to it happens in the visitor of the walk over the file, or it is sorted by position"},
 	{ID: "G40", Floor: 2, Props: []string{"C13", "C20"}, Text: "the position the name checks work with (a token.Pos field of the generator, read by the checks that run while the templates are rendered) is assigned from the directive being generated before the rendering call, in the rendering function or in all of its callers"},
 	{ID: "G39", Floor: 1, Props: []string{"C13", "C14"}, Text: "no spelling of a directive is skipped in silence: the file walk that dispatches to the flow and parallel compilers also covers a directive written as a plain identifier (cff imported as \".\") - it reports such an identifier, or reports the dot import, or expands it like a selector call"},
@@ -1299,6 +1300,7 @@ func Run(repo *load.Repo, s *report.Sink) error {
 		{[]string{"G39"}, c.spellings},
 		{[]string{"G40"}, c.usePosition},
 		{[]string{"G41"}, c.generatorOrder},
+		{[]string{"G42"}, c.optionDispatch},
 		{[]string{"G29"}, c.structuralAssertions},
 	}
 	for _, st := range steps {
